@@ -34,6 +34,8 @@ func init() {
 			{Name: "S-BLOCK/udp-faultfree", Weight: 1, Run: func(e *Env) { c04Run(e, TrUDP, false) }},
 			{Name: "S-BLOCK/udp-faults", Weight: 3, Run: func(e *Env) { c04Run(e, TrUDP, true) }},
 			{Name: "S-BLOCK/tcp", Weight: 2, Run: func(e *Env) { c04Run(e, TrTCP, false) }},
+			{Name: "S-BLOCK/scripted-download", Weight: 2, Run: c04ScriptedDownload},
+			{Name: "S-BLOCK/scripted-upload", Weight: 2, Run: c04ScriptedUpload},
 		},
 		Quick:    30000,
 		Thorough: 1500000,
